@@ -152,20 +152,20 @@ func runSequential(t *testing.T, ctx context.Context, base *vstore.Store, sc con
 }
 
 type concResult struct {
-	Scenario   concScenario
-	Execs      int
-	Complete   int
-	States     int
+	Scenario    concScenario
+	Execs       int
+	Complete    int
+	States      int
 	Transitions int
-	Pruned     int
-	MaxDepth   int
-	CapHit     bool
-	Diverged   []string
-	Images     int
-	Outcomes   map[string]int // distinct (results, final) outcomes
-	Violations []concViolation
-	SeqOrders  int
-	Sample     []string
+	Pruned      int
+	MaxDepth    int
+	CapHit      bool
+	Diverged    []string
+	Images      int
+	Outcomes    map[string]int // distinct (results, final) outcomes
+	Violations  []concViolation
+	SeqOrders   int
+	Sample      []string
 	// executions in which some operation failed for a reason no sequential
 	// order produces (a lost race reported as e.g. "not found"), but which are
 	// explained once that operation is treated as not executed
